@@ -43,12 +43,13 @@ pub struct Args {
 }
 
 impl Args {
-    pub fn parse() -> Args {
+    /// Parses `[--seed N] [--tier quick|thorough] [--out DIR] [--key value]*`.
+    pub fn parse(scenario: &str) -> Args {
         let mut it = std::env::args().skip(1);
-        let scenario = it.next().unwrap_or_else(|| { eprintln!("usage: kvh <scenario> [--seed N] [--tier quick|thorough] [--out DIR] [--key value]*"); std::process::exit(2) });
+        let scenario = scenario.to_string();
         let mut seed = std::env::var("VERIF_SEED").ok().and_then(|s| s.parse().ok()).unwrap_or(1u64);
         let mut tier = std::env::var("VERIF_TIER").unwrap_or_else(|_| "quick".into());
-        let mut out = PathBuf::from("/verif/cache/run/tmp");
+        let mut out = std::env::temp_dir().join("kvh-out");
         let mut extra = BTreeMap::new();
         while let Some(a) = it.next() {
             let v = it.next().unwrap_or_default();
